@@ -361,8 +361,15 @@ Section Run.
     | OmRegf =>
         match out_name (c_decompress cf) op with
         | None => fatal "nosuffix"      (* suffix_xform() found nothing: not reachable with a catch-all entry *)
-        | Some q =>
-            (if c_force cf then
+        | Some q => fun s =>
+            (* with the repair of the -f data loss in the source (regenerated flag): the output name is first
+               stat()ed, and the operand is skipped if that name leads to the file being read.  The stat() is
+               not a counted call (the fault shim does not wrap it; its failure for reasons other than the
+               name being absent is not modelled). *)
+            if c_force cf && output_init_checks_same_file && same_file (m_fs s) q st
+            then (warn "samefile" ;;; ret None) s
+            else
+            ((if c_force cf then
                r <- sys false KUnlink (fun f => sys_unlink f q) ;;
                match r with
                | SErr e => if N.eqb e ENOENT then ret tt else say MInfo "unlink-out"
@@ -374,7 +381,7 @@ Section Run.
             match r with
             | SOk i => modify (fun s => set_opathn s (Some q)) ;;; ret (Some (OFile i))
             | _ => warn "open-out" ;;; ret None
-            end
+            end) s
         end
     end.
 
